@@ -367,4 +367,5 @@ def run(chk, tier, only_rule=None):
     r19_3(chk, facts)
     r19_4(chk, tier)
     from . import c15
-    c15.r15_6(chk, F.load(['patch'], tier))     # an allocation failure inside apply_patch leaves the state at begin: the destructor must roll back
+    c15.r15_6(chk, F.load(['patch'], tier))
+    c15.r19_5(chk, F.load(['patch'], tier))     # an allocation failure inside apply_patch leaves the state at begin: the destructor must roll back
